@@ -32,6 +32,7 @@ codes! { OpCode, OPS:
     Clone = "clone" / 1,           // h
     Drop = "drop" / 1,             // h
     SetSlot = "setslot" / 3,       // owner h, slot, target h
+    MoveSlot = "moveslot" / 3,     // owner h, slot, target h: the handle itself is moved into the field (no clone)
     ClearSlot = "clearslot" / 2,   // owner h, slot
     SetPin = "setpin" / 2,         // owner h, target h
     ClearPin = "clearpin" / 2,     // owner h, pin index
